@@ -7,7 +7,7 @@ from typing import Any, Dict, List, Set, Tuple
 
 from ..cfg import build_cfg, contains_call
 from ..fold import Folder
-from ..model import Model, dotted, unparse, walk_no_nested
+from ..model import AnchorMissing, Model, dotted, unparse, walk_no_nested
 from ..norm import NotPolynomial, Poly, SymEval, canon_compare
 from ..report import Report
 from ..util import bool_operands, param_unpack, site, subst_names, unpack_aliases
@@ -93,6 +93,7 @@ def run(model: Model, rep: Report) -> None:
 
     _plane(model, rep)
     _getrange_clamp(model, rep)
+    seq_writers_rule(model, rep)
 
 
 def _special_cases(fn: ast.AST, se: SymEval):
@@ -334,6 +335,54 @@ def _getrange_clamp(model: Model, rep: Report) -> None:
         r8.check((dotted(n.value.func) or "") == fn_ and args == sorted([bound, t]), site(f, n), f.qualname, f"{t} = {fn_}({bound}, {t})", why=f"`{unparse(n)}`: the {['left', 'bottom', 'right', 'top'][int(comp)]} edge of the query is clamped with another bound; for a plane whose x- and y-bounds differ objects are filed under the wrong cells or none")
     if found < 4:
         r8.violation(site(f), f.qualname, "four clamping assignments", f"only {found} found")
+
+
+def overlap_predicate_rule(model: Model, rep: Report, rid: str) -> None:
+    """Plane.find reports exactly the objects that properly overlap the query (touching edges do not count): shared with C09,
+    whose neighbour search (`closer than line_margin`) relies on the strictness."""
+    r = rep.rule(rid, "TABLE", "Plane.find: an object is reported iff x0 < obj.x1 and obj.x0 < x1 and y0 < obj.y1 and obj.y0 < y1 (strict on all four sides)", 1)
+    find = model.func("pdfminer.utils.Plane.find")
+    want = {("bbox[0]", "<", "obj.x1"), ("obj.x0", "<", "bbox[2]"), ("bbox[1]", "<", "obj.y1"), ("obj.y0", "<", "bbox[3]")}
+    al = unpack_aliases(find)
+    pname = find.params[1] if len(find.params) > 1 else "bbox"
+    al = {k: v.replace(pname + "[", "bbox[") for k, v in al.items()}
+    got: Set[Tuple[str, str, str]] = set()
+    found = False
+    for n in walk_no_nested(find.node):
+        if isinstance(n, ast.If) and "obj." in unparse(n.test) and isinstance(n.test, (ast.BoolOp, ast.Compare)) and any(isinstance(c, ast.Compare) and isinstance(c.ops[0], (ast.Lt, ast.LtE, ast.Gt, ast.GtE)) for c in ast.walk(n.test)):
+            rejecting = len(n.body) == 1 and isinstance(n.body[0], ast.Continue)
+            try:
+                got = _canon_set(n.test, al, negate=rejecting)
+            except ValueError:
+                continue
+            found = True
+            break
+    r.check(found and got == want, site(find), find.qualname, "accept iff x0 < obj.x1 and obj.x0 < x1 and y0 < obj.y1 and obj.y0 < y1", why=f"normalised acceptance set is {sorted(got)}: a line exactly line_margin away (touching the search box) would count as a neighbour")
+
+
+def seq_writers_rule(model: Model, rep: Report) -> None:
+    r9 = rep.rule("C20-R9", "WRITESET", "Plane._seq (the insertion order) is created in __init__ and only ever appended to by add", 2)
+    n_ = 0
+    for mname, f in sorted(model.cls("pdfminer.utils.Plane").methods.items()):
+        for n in walk_no_nested(f.node):
+            how = None
+            if isinstance(n, (ast.Assign, ast.AugAssign, ast.AnnAssign)):
+                for t in n.targets if isinstance(n, ast.Assign) else [n.target]:
+                    if isinstance(t, ast.Attribute) and t.attr == "_seq":
+                        how = "assignment"
+                    elif isinstance(t, ast.Subscript) and isinstance(t.value, ast.Attribute) and t.value.attr == "_seq":
+                        how = "item store"
+            elif isinstance(n, ast.Delete) and any("_seq" in unparse(t) for t in n.targets):
+                how = "deletion"
+            elif isinstance(n, ast.Call) and isinstance(n.func, ast.Attribute) and isinstance(n.func.value, ast.Attribute) and n.func.value.attr == "_seq" and n.func.attr in ("append", "extend", "insert", "pop", "remove", "clear", "sort", "reverse"):
+                how = "." + n.func.attr + "()"
+            if how is None:
+                continue
+            n_ += 1
+            ok = (mname == "__init__" and how == "assignment") or (mname == "add" and how == ".append()")
+            r9.check(ok, site(f, n), f.qualname, f"_seq {how}: {unparse(n)[:60]}", why="iteration order is the order of _seq: rebuilding or re-ordering it (for example from the set of live objects) loses the insertion order")
+    if n_ < 2:
+        raise AnchorMissing("Plane: writes of _seq not found")
 
 
 def plane_membership_rule(model: Model, rep: Report, rid: str) -> None:
